@@ -98,6 +98,43 @@ def run(rep):
     diverges = [e for e in ogp.effects.get(q, []) if e['kind'] == 'diverge' and e['what'] in ('panic', 'todo', 'unreachable', 'unimplemented', 'assert')]
     relevant = [e for e in diverges if mentions(e['cond'], lambda x: (x[0] == 'f' and x[1] == optP and x[2] in ATOMS) or is_rts_any(x))]
     rep.analysed = {'function': q, 'derive_entries': len(entries), 'panic_sites_depending_on_options_or_runtime_arrays': len(relevant), 'rows': 64}
+    # ---- the "ends in a runtime-sized array" atom is what it says: some member of THIS struct (all of them looked at) has a type that is an
+    # array of dynamic size - the truth table below only varies its value, this rule fixes its meaning
+    rts_terms = []
+    def note_rts(x):
+        if is_rts_any(x) and not any(x == y for y in rts_terms):
+            rts_terms.append(x)
+    E.walk(item_term, note_rts)
+    for en_ in entries:
+        E.walk(en_['cond'], note_rts)
+    for e_ in diverges:
+        E.walk(e_['cond'], note_rts)
+    want_src = ('vf', inner, 'naga::TypeInner::Struct', 'members')
+    TI = 'naga::TypeInner::'
+    for n_, x in enumerate(rts_terms):
+        stx = x[1]
+        el = ('elem', stx[2], stx[1])
+        # a selection that only removes builtin members is harmless (a builtin is never an array); anything else looks at a part of the members
+        only_builtin_filter = all(c_[0] == 'not' and 'Binding::BuiltIn' in repr(c_) and repr(c_).count("'is'") <= 2 for c_ in stx[4])
+        ok_src = stx[1] == want_src and stx[3] == el and not stx[5] and only_builtin_filter
+        mt = ('f', ('idx', ('f', st[1][1], 'types'), ('f', el, 'ty')), 'inner')
+        got = {}
+        for label, innerv in (('array<T>', V(TI + 'Array', base='B', size=V('naga::ArraySize::Dynamic'), stride=16)),
+                              ('array<T,4>', V(TI + 'Array', base='B', size=V('naga::ArraySize::Constant', **{'0': 4}), stride=16)),
+                              ('f32', V(TI + 'Scalar', **{'0': V('naga::Scalar', kind=V('naga::ScalarKind::Float'), width=4)})),
+                              ('struct', V(TI + 'Struct', members=(), span=4))):
+            def leaf_(t, innerv=innerv):
+                return (innerv,) if t == mt else None
+            try:
+                got[label] = Eval(leaf_, lenient=False).truth(x[2])
+            except (Diverge, Unbound) as ex:
+                got[label] = f'<{ex}>'
+        ok_cond = got == {'array<T>': True, 'array<T,4>': False, 'f32': False, 'struct': False}
+        rep.check(ok_src and ok_cond, 'C09.rts-atom', f'rts-atom#{n_}' if n_ else 'rts-atom', where,
+                  f'"the struct ends in a runtime-sized array" is computed as any({E.show(stx[1], maxdepth=5)}'
+                  f'{" filtered by " + str([E.show(c_, maxdepth=4) for c_ in stx[4]][:2]) if stx[4] and not only_builtin_filter else ""}, member type -> {got}); expected: some member of '
+                  f'this struct - all members looked at - has a type that is an array of dynamic size', ok_detail='any member of the struct is an array of dynamic size')
+    rep.floor('runtime-sized-array atom of the derive guards', len(rts_terms), 1)
     # the options reach the generating function and its sections exactly as the caller gave them (shared MIR rule, lib/wrappers.py)
     from wrappers import check_option_passthrough
     check_option_passthrough(rep, 'C09.options-passthrough')
